@@ -839,6 +839,11 @@ type deadlineContextWriter struct {
 
 	// quit closed once the connection is closed.
 	quit chan struct{}
+
+	// err is the first error returned by w.Write. It is protected by semaphore.
+	// Once a write has failed, part of a frame may be on the wire, so nothing
+	// more must be written to the connection.
+	err error
 }
 
 // writeContext implements contextWriter.
@@ -858,13 +863,21 @@ func (c *deadlineContextWriter) writeContext(ctx context.Context, p []byte) (int
 		<-c.semaphore
 	}()
 
+	if c.err != nil {
+		return 0, c.err
+	}
+
 	if c.timeout > 0 {
 		err := c.w.SetWriteDeadline(time.Now().Add(c.timeout))
 		if err != nil {
 			return 0, err
 		}
 	}
-	return c.w.Write(p)
+	n, err := c.w.Write(p)
+	if err != nil {
+		c.err = err
+	}
+	return n, err
 }
 
 func newWriteCoalescer(conn deadlineWriter, writeTimeout, coalesceDuration time.Duration,
@@ -888,6 +901,11 @@ type writeCoalescer struct {
 	writeCh chan writeRequest
 
 	timeout time.Duration
+
+	// err is the first error returned by a flush. It is only used by the flusher goroutine.
+	// Once a write has failed, part of a frame may be on the wire, so nothing
+	// more must be written to the connection.
+	err error
 
 	testEnqueuedHook func()
 	testFlushedHook  func()
@@ -983,6 +1001,15 @@ func (w *writeCoalescer) writeFlusherImpl(timerC <-chan time.Time, resetTimer fu
 }
 
 func (w *writeCoalescer) flush(resultChans []chan<- writeResult, buffers net.Buffers) {
+	if w.err != nil {
+		for i := range resultChans {
+			resultChans[i] <- writeResult{
+				n:   0,
+				err: w.err,
+			}
+		}
+		return
+	}
 	// Flush everything we have so far.
 	if w.timeout > 0 {
 		err := w.c.SetWriteDeadline(time.Now().Add(w.timeout))
@@ -1000,6 +1027,9 @@ func (w *writeCoalescer) flush(resultChans []chan<- writeResult, buffers net.Buf
 	buffers2 := make(net.Buffers, len(buffers))
 	copy(buffers2, buffers)
 	n, err := buffers2.WriteTo(w.c)
+	if err != nil {
+		w.err = err
+	}
 	verifYield("wc.afterWrite", nil, 0)
 	// Writes of bytes before n succeeded, writes of bytes starting from n failed with err.
 	// Use n as remaining byte counter.
